@@ -742,7 +742,8 @@ func (x *exec) run(o op) {
 	case "tick":
 		before := nfs.VerifStateCounts(x.program)["incarnations"]
 		x.send(&sent{req: &mreq{kind: "renew", short: 0}})
-		if nfs.VerifStateCounts(x.program)["incarnations"] < before {
+		// (a panic inside enter() leaves the program's lock held: do not touch it again)
+		if !x.stop && nfs.VerifStateCounts(x.program)["incarnations"] < before {
 			x.expiries++
 		}
 	case "setclientid":
